@@ -36,7 +36,7 @@ func removeNodeByNodePath(d *Dir, nodePath []string, emptyOnly bool) (err error)
 		if lastDir, ok = lastNode.(*Dir); !ok {
 			return dirNode.removeNodeByName(lastNodeName)
 		}
-		if len(lastDir.nodes) != 0 {
+		if lastDir.Size() != 0 {
 			return goaterr.Errorf("Can not remove empty node")
 		}
 		return dirNode.removeNodeByName(lastNodeName)
